@@ -253,6 +253,7 @@ func Main(t *testing.T, race bool) {
 		}
 		code = 0
 	}
+	CleanupScratch()
 	os.Stdout.Sync()
 	os.Exit(code)
 }
@@ -610,6 +611,7 @@ type violRec struct {
 	count int
 	crash bool
 	tail  string
+	replan *Plan
 }
 
 func parentMain(c *Ctx) int {
@@ -718,6 +720,12 @@ func parentMain(c *Ctx) int {
 		u := us[vr.unit]
 		def := pd.check(u.Check)
 		plan := def.Plan(c, u.Run)
+		if vr.replan != nil {
+			plan = vr.replan
+			if d2 := pd.check(plan.Check); d2 != nil {
+				def = d2
+			}
+		}
 		var kf *finding
 		for _, f := range findings {
 			if f.Property == pd.ID && f.Status == "open" && f.re.MatchString(sig) {
@@ -945,7 +953,7 @@ func (a *agg) merge(pd *PropDef, us []unit, r *Result) {
 	for _, v := range r.Violations {
 		vr, ok := a.viol[v.Sig]
 		if !ok {
-			vr = &violRec{v: v, unit: int(r.Run)}
+			vr = &violRec{v: v, unit: int(r.Run), replan: r.Replan}
 			a.viol[v.Sig] = vr
 			a.violOrder = append(a.violOrder, v.Sig)
 		}
@@ -953,6 +961,7 @@ func (a *agg) merge(pd *PropDef, us []unit, r *Result) {
 		if int(r.Run) < vr.unit {
 			vr.unit = int(r.Run)
 			vr.v = v
+			vr.replan = r.Replan
 		}
 	}
 }
